@@ -39,7 +39,41 @@ fn zip_offset_seeds(_t: Tier) -> Vec<Seed> {
             v.push(seed(&format!("zip_offset(content_bytes={n})"), f, 0));
         }
     }
+    // real stores: several records (short ones — shorter than a checksum trailer — in the middle and at the end), with and
+    // without record checksums / compression, so that a header byte can claim a layout the content does not have
+    use zipora::blob_store::ZipOffsetBlobStoreConfig;
+    for (compress, checksum) in [(0u8, 0u8), (0, 2), (0, 3), (3, 2)] {
+        let mut cfg = ZipOffsetBlobStoreConfig::default();
+        cfg.compress_level = compress;
+        cfg.checksum_level = checksum;
+        let Ok(mut b) = ZipOffsetBlobStoreBuilder::with_config(cfg) else { continue };
+        let mut ok = true;
+        for r in [&b"abcdefgh"[..], b"xy", b"", b"0123456789", b"z"] {
+            ok &= b.add_record(r).is_ok();
+        }
+        let Ok(store) = b.finish() else { continue };
+        let mut bytes = Vec::new();
+        if ok && store.save_to_writer(&mut bytes).is_ok() {
+            v.push(seed(&format!("zip_offset(5 records, compress={compress}, checksum={checksum})"), bytes, 0));
+        }
+    }
     v
+}
+
+/// load, then read everything the store offers (a loader that accepts a file must not crash when the content is read)
+fn zip_offset_read_all(s: &ZipOffsetBlobStore) {
+    let n = s.len().min(64);
+    let mut acc = 0usize;
+    for id in 0..n as u32 + 1 {
+        acc += s.contains(id) as usize;
+        if let Ok(Some(sz)) = s.size(id) {
+            acc += sz;
+        }
+        if let Ok(d) = s.get(id) {
+            acc += d.len();
+        }
+    }
+    std::hint::black_box(acc);
 }
 
 // ---------------------------------------------------------------------------------------------
@@ -178,19 +212,33 @@ pub fn all(tier: Tier) -> Vec<P> {
     let th = tier == Tier::Thorough;
     vec![
         P {
-            name: "ZipOffsetBlobStore::load_from_reader",
+            name: "ZipOffsetBlobStore::load_from_reader + get every record",
             seeds: zip_offset_seeds,
             parse: |b, _| {
                 let mut c = std::io::Cursor::new(b);
-                ZipOffsetBlobStore::load_from_reader(&mut c).is_ok()
+                match ZipOffsetBlobStore::load_from_reader(&mut c) {
+                    Ok(s) => {
+                        zip_offset_read_all(&s);
+                        true
+                    }
+                    Err(_) => false,
+                }
             },
             len_arg: false,
             small: th,
         },
         P {
-            name: "ZipOffsetBlobStore::load_from_file",
+            name: "ZipOffsetBlobStore::load_from_file + get every record",
             seeds: zip_offset_seeds,
-            parse: |b, _| with_file(b, |p| ZipOffsetBlobStore::load_from_file(p).is_ok()),
+            parse: |b, _| {
+                with_file(b, |p| match ZipOffsetBlobStore::load_from_file(p) {
+                    Ok(s) => {
+                        zip_offset_read_all(&s);
+                        true
+                    }
+                    Err(_) => false,
+                })
+            },
             len_arg: false,
             small: false,
         },
